@@ -50,7 +50,7 @@ func Plan(out string, seed uint64, tier string, scenario string, count int, epoc
 		}
 		// fixed part of every quick run (each covers inputs the seeded-defect trials need), plus one rotating scenario
 		names = []string{"basic", "all_ops_one_block", "mass_slashing", "exits_then_ejection", "eth1_votes"}
-		others = remove(others, "sync_same_multiset") // fixed last chain of every quick run, see below
+		others = remove(remove(others, "sync_same_multiset"), "forks_at_genesis") // fixed last chains of every quick run, see below
 		var rest []string
 		for _, n := range others {
 			used := false
@@ -69,7 +69,7 @@ func Plan(out string, seed uint64, tier string, scenario string, count int, epoc
 		for i := 0; i < n; i++ {
 			names = append(names, rest[(off+i)%len(rest)])
 		}
-		names = append(names, "sync_same_multiset")
+		names = append(names, "sync_same_multiset", "forks_at_genesis")
 	} else {
 		n := 60
 		if count > 0 {
@@ -110,7 +110,7 @@ func Plan(out string, seed uint64, tier string, scenario string, count int, epoc
 		}
 		div := len(names)
 		if quick && scenario == "" {
-			div-- // the small sync_same_multiset chain at the end has its own small budget
+			div -= 2 // the two small chains at the end have their own small budgets
 		}
 		pr.Corrupt = (totalCorrupt + div - 1) / div
 		pr.Cancel = (totalCancel + div - 1) / div
@@ -119,6 +119,12 @@ func Plan(out string, seed uint64, tier string, scenario string, count int, epoc
 			pr.CoverForks = [5]bool{}
 			pr.Corrupt, pr.Cancel, pr.Engine = 10, 0, 0
 			pr.Epochs = 8
+		}
+		if quick && scenario == "" && n == "forks_at_genesis" {
+			pr.CoverForks = [5]bool{}
+			pr.Corrupt, pr.Cancel, pr.Engine = 10, 0, 0
+			pr.Epochs = 4
+			pr.Genesis = 0
 		}
 		pr.Genesis = 3
 		if !quick {
@@ -191,7 +197,7 @@ func Plan(out string, seed uint64, tier string, scenario string, count int, epoc
 		for k := 0; k < 3; k++ {
 			r := master.Fork()
 			plan = append(plan, ChainParams{Scenario: Scenarios["genesis"], Dir: ChainDir(out, "genesis", k), Name: fmt.Sprintf("genesis-%d", k),
-				Seed: seed, Rng: r, Epochs: 8, Plain: k == 0, Genesis: ng, GenesisOnly: true, OddVectors: k == 1})
+				Seed: seed, Rng: r, Epochs: 8, Plain: k == 0, Genesis: ng, GenesisOnly: true, OddVectors: k == 1, ForkBias: map[int]string{2: "zero_all"}[k]})
 		}
 	}
 	return plan
@@ -323,6 +329,10 @@ func CLI(args []string) int {
 // RequiredQuick: counters (summary.json: per_fork.<fork>.<k> for "<fork>.<k>", else counts.<k>) that must be non-zero in
 // every quick run.
 var RequiredQuick = []string{
+	// round 12
+	"deneb.exit_with_capella_deneb_same_epoch", "deposit_fork_side_key_foreign_pop_skipped",
+	"kickstart_undecodable_pubkeys_counted_as_deposits", "genesis_cases_with_fork_at_epoch_0_ok",
+	"genesis_fork_at_epoch0_deposit_signed_under_later_version", "validators_added_by_deposit_with_fork_at_epoch_0",
 	// round 11
 	"consecutive_sync_committees_same_multiset_different_order",
 	// round 10
